@@ -260,22 +260,33 @@ PROPS["C14"] = dict(
     thorough=[c14collect(2, 1, 1800), c14collect(3, 0, 1800), c14render(0, 2, 1, 1800), c14render(1, 2, 1, 1800), c14render(1, 2, 0, 1800)],
 )
 
-C01H = ["gqlds/c01_exec.go", "gqlds/c01_fed.go", "common/zz_json.go"]
+C01H = ["gqlds/c01_exec.go", "gqlds/c01_fed.go", "gqlds/c01_fed2.go", "common/zz_json.go", "common/zz_exec.go"]
 
 def c01(depth, budget, maxdev, timeout=1800):
     return spec("H-C01a[%d,%d,%d]" % (depth, budget, maxdev), "./pkg/engine/datasource/graphql_datasource", C01H, "VerifC01Fed", [depth, budget, maxdev],
                 "federation F1 (users/reviews/products: 3 subgraphs, 3 entity types with single-field keys, nested entity jumps in both directions, lists, nullable and non-null fields); operations: one of 3 root fields + optional aliased second root field, nesting depth <=%d, at most %d optional parts (solver-chosen); data: fixed object graph with one of %d single-null deviations (nullable null, non-null violated in users/reviews subgraph, list null, entity reference null); real normalization, validation, planner, post-processing, resolver, loader, resolvable; subgraphs = reference executor on the same data answering whatever query they are sent, validating each request against the subgraph's federation schema" % (depth, budget, maxdev + 1),
                 ["clean"] + (["with errors"] if maxdev >= 2 else []), timeout=timeout)
 
+F2DESC = "federation F2 (accounts/content/products/shipping/labels: interfaces Node and Catalog with entity-typed fields, list of entities below an interface field, union-free abstract selections with and without type fragments, custom scalar DateTime!, @requires chain accounts.zip -> shipping.estimate -> labels.label computed by the subgraph from the representation it is sent, repeated entity references in one batch)"
+
+def c01b(depth, budget, maxdev, timeout=1800):
+    return spec("H-C01b[%d,%d,%d]" % (depth, budget, maxdev), "./pkg/engine/datasource/graphql_datasource", C01H, "VerifC01Fed2", [depth, budget, maxdev],
+                F2DESC + "; operations: one of 5 root fields, nesting <=%d, <=%d optional parts; %d data deviations; stub subgraphs also check that every @requires input is present in the representation" % (depth, budget, maxdev + 1),
+                ["clean"] + (["with errors"] if maxdev >= 2 else []), timeout=timeout)
+
+def c01c(maxdev, timeout=1800):
+    return spec("H-C01c[%d]" % maxdev, "./pkg/engine/datasource/graphql_datasource", C01H, "VerifC01Fed2Ops", [maxdev],
+                F2DESC + "; 9 fixed operations each needing one planner/loader mechanism, %d data deviations" % (maxdev + 1), ["compared"], timeout=timeout)
+
 PROPS["C01"] = dict(
     title="Federated execution equals monolithic execution of the supergraph",
     level_text="bounded symbolic execution of the whole gateway pipeline (astnormalization, astvalidation, plan.Planner with the graphql_datasource planner, postprocess, resolve.Resolver/Loader/Resolvable) interpreted from go/ssa; the operation's optional parts and the data deviation are solver decisions, every combination within the bounds is explored; oracle = a reference GraphQL executor (CollectFields/CompleteValue with null bubbling) run as the monolith on the supergraph and, behind the real loader, as each subgraph on its own schema: data equality, error presence equivalence, planning success, every subgraph request valid against the subgraph schema and asking only for fields it defines",
-    level_note="bounds: one federation layout (F1), generated operation family, fixed data graph with single deviations; no @requires/@provides/abstract types/arguments/variables yet; goroutine schedule of planner and loader fixed (run to completion in spawn order), map iteration order fixed (insertion order) - both varied separately under C09; trusted base: gosym incl. its encoding/json and timer models, the reference executor",
+    level_note="bounds: two federation layouts (F1; F2 with interfaces, custom scalar, @requires chain), generated operation families and fixed operations, fixed data graphs with single deviations; no @provides, unions, field arguments or client variables, no composite or nested keys, no shared non-key fields; goroutine schedule of planner and loader fixed (run to completion in spawn order), map iteration order fixed (insertion order) - both varied separately under C09; trusted base: gosym incl. its encoding/json and timer models, the reference executor",
     design_ref="DESIGN.md §4 C01",
     assumptions=["the data universe is consistent: every subgraph sees the same value for a shared field", "timers/tickers never fire (heartbeat loop idle)", "fixed goroutine schedule and map order (varied under C09)"],
     stubs=["subgraph HTTP transport replaced by a DataSource stub that parses the rendered request input and executes the query with the reference executor", "encoding/json, reflect.TypeOf(x).String(), time.NewTicker/NewTimer/AfterFunc: engine models", "go-arena: no arena"],
-    quick=[c01(2, 2, 0), c01(2, 1, 7)],
-    thorough=[c01(2, 3, 7, 3000), c01(3, 4, 0, 3000)],
+    quick=[c01(2, 2, 0), c01(2, 1, 7), c01c(5), c01b(2, 1, 0)],
+    thorough=[c01(2, 3, 7, 3000), c01(3, 4, 0, 3000), c01b(2, 3, 5, 3000), c01b(3, 3, 0, 3000)],
 )
 
 C09H = ["gqlds/c01_plan.go", "gqlds/c09_determinism.go"]
@@ -286,15 +297,58 @@ def c09(op, mapb, sched, preempt=1, timeout=1800):
                 "operation %d (%s) on a 2-subgraph federation planned twice with fresh planners: reference with insertion-ordered maps and run-to-completion goroutines, then with at most %d map iterations (anywhere in normalization, validation, planning, post-processing) started at a solver-chosen rotation%s; digest = fetch tree structure, every subgraph request, dependencies, merge paths, response shape" % (op, C09OPS[op], mapb, " and every schedule of the planner's per-data-source goroutines with <=%d preemptions" % preempt if sched else ""),
                 ["planned"], timeout=timeout, preempt=preempt)
 
+C09BH = ["gqlds/c01_exec.go", "gqlds/c01_fed.go", "gqlds/c01_fed2.go", "gqlds/c09_options.go", "common/zz_json.go", "common/zz_exec.go"]
+
+def c09b(maxdev, sched, timeout=1800):
+    return spec("H-C09b[%d,%d]" % (maxdev, sched), "./pkg/engine/datasource/graphql_datasource", C09BH, "VerifC09Options", [maxdev, sched],
+                "federation F2, 9 fixed operations, %d data deviations: response with default post-processing vs. one solver-chosen option set (de-duplication off; multi-fetch on; DAG scheduling on; both on; parallel nodes off), and first vs. second execution of the same plan object%s; subgraphs = reference executor" % (maxdev + 1, "; loader goroutine schedules of the optimized plan explored with <=1 preemption" if sched else ""),
+                ["compared"], timeout=timeout, preempt=1)
+
 PROPS["C09"] = dict(
     title="Planning is deterministic; caching and plan optimizations are transparent",
     level_text="bounded symbolic execution of the real planner pipeline with map iteration order and goroutine schedule as decision variables: the engine's maps iterate in insertion order by default and, when exploration is on, every range over a map with >=2 entries starts at a solver-chosen rotation (bounded number of non-default choices per path); the planner's parallel node collection runs under the engine scheduler. The plan digest must equal the reference digest on every explored order/schedule",
-    level_note="bounds: 4 fixed operations, rotations only (not all permutations), <=2 non-default map orders per path, preemption bound 1; plan-cache transparency, variable renaming and the optimisation on/off equivalences (dedup, multi-fetch, scheduling, minification) are not covered by this check (structure-level checks of the optimisations are under C08); trusted base: gosym scheduler and map model",
+    level_note="bounds: 4 fixed operations, rotations only (not all permutations), <=2 non-default map orders per path, preemption bound 1; H-C09b compares responses across post-processing option sets and across re-execution of one plan object; the execution engine's plan cache keying, variable renaming and subgraph-operation minification are not covered; trusted base: gosym scheduler and map model",
     design_ref="DESIGN.md §4 C09",
     assumptions=["A-DRF for the planner's goroutines"],
     stubs=["encoding/json, reflect.TypeOf(x).String(): engine models"],
-    quick=[c09(3, 2, 0), c09(0, 1, 1)],
-    thorough=[c09(0, 2, 1, 1, 3000), c09(1, 1, 1, 1, 3000), c09(2, 1, 1, 1, 3000)],
+    quick=[c09(3, 2, 0), c09(0, 1, 1), c09b(0, 0)],
+    thorough=[c09(0, 2, 1, 1, 3000), c09(1, 1, 1, 1, 3000), c09(2, 1, 1, 1, 3000), c09b(5, 0, 3000), c09b(0, 1, 3000)],
+)
+
+C03H = ["astnorm/c03_norm.go", "common/zz_json.go", "common/zz_exec.go"]
+
+def c03(depth, budget, pair, pipeline, timeout=1800):
+    return spec("H-C03a[%d,%d,%d,%d]" % (depth, budget, pair, pipeline), "./pkg/astnormalization", C03H, "VerifC03Normalize", [depth, budget, pair, pipeline],
+                "generated operations on a schema with objects, interface, union, input objects with defaults, enums, list types: selection nesting <=%d, at most %d non-default generator choices (which fields, aliases, @skip/@include with literal or variable conditions, argument values incl. null, lists, single values to be list-coerced, nested input objects, variables inside object literals; spelled directly, duplicated, through inline fragments with/without type condition, fragment spreads, literals moved into variables with value / with default / with overridden default)%s; pipeline %s; oracle = reference executor (CollectFields, CoerceArgumentValues with defaults and list coercion; echo fields return their coerced arguments) on fixed data" % (depth, budget, "; second spelling of the same meaning with <=%d syntactic choices" % pair if pair else "", ["one stage, all options (graphql.Request.Normalize)", "two stages as execution/engine Execute (normalize, validate, extract variables)"][pipeline]),
+                ["normalized"] + (["pair compared"] if pair else []), timeout=timeout)
+
+PROPS["C03"] = dict(
+    title="Normalization preserves operation meaning, validity, and is idempotent",
+    level_text="bounded symbolic execution of the real normalization pipeline (all astnormalization stages, astvalidation on the result, astprinter, VariablesMapper) on solver-chosen generated operations and variables: normalization succeeds, the result validates, the reference executor returns the same response for (original operation, original variables) and (normalized operation, normalized variables), a second normalization changes neither the printed form nor the variables, no fragment definition remains, and two spellings of one meaning reach the same canonical form after variable mapping",
+    level_note="bounds: one schema, generated operation family with a budget of non-default choices, fixed data; normalization is taken as a function of operation and variable values (normalizing without the client's variables and WithIgnoreSkipInclude are outside the property); @defer expansion is under C10; definition normalization not covered; pipeline 1 mirrors the option lists of execution/engine Execute rather than executing it; trusted base: gosym, reference executor/coercion",
+    design_ref="DESIGN.md §4 C03",
+    assumptions=["generated operations are valid by construction (the repository's validator only accepts normalized documents, so it is applied after normalization)"],
+    stubs=["encoding/json: engine model"],
+    quick=[c03(1, 3, 0, 0), c03(1, 2, 1, 1)],
+    thorough=[c03(2, 4, 0, 0, 3000), c03(1, 3, 0, 1, 3000), c03(1, 2, 2, 0, 3000), c03(1, 2, 2, 1, 3000)],
+)
+
+C07H = ["gqlds/c01_exec.go", "gqlds/c01_fed.go", "gqlds/c01_fed2.go", "gqlds/c07_faults.go", "common/zz_json.go", "common/zz_exec.go"]
+
+def c07(fed, depth, budget, timeout=1800):
+    return spec("H-C07a[%d,%d,%d]" % (fed, depth, budget), "./pkg/engine/datasource/graphql_datasource", C07H, "VerifC07Faults", [fed, depth, budget],
+                ("federation F1 and operation family of H-C01a" if fed == 1 else "federation F2 (interfaces, @requires chain over three subgraphs, custom scalar) and " + ("the 9 fixed operations of H-C01c" if depth == 0 else "the operation family of H-C01b")) + " (depth <=%d, <=%d optional parts); the plan is executed fault-free and then again (same plan object, as from a plan cache) with one solver-chosen subgraph answering with one solver-chosen fault: transport error, empty body, non-JSON body, errors without data, errors with data:null (all requests), or one entity too few (entity requests)" % (depth, budget),
+                ["a failing request was sent", "the faulted subgraph was not needed"], timeout=timeout)
+
+PROPS["C07"] = dict(
+    title="Subgraph failures are isolated to the data that depended on them",
+    level_text="bounded symbolic execution of planner, loader and resolvable with fault injection at the data-source boundary: the response stays one well-formed document, its data equals the reference executor's answer in which exactly the fields that needed a request to the faulted subgraph are null (null-propagated per schema nullability, derived from an ownership model of the federation), an error is reported iff a failing answer was given, a fault in an unused subgraph changes nothing, and every request sent under the fault was also sent fault-free (same subgraph and query, subset of the representations)",
+    level_note="bounds: federations F1 and F2, one faulted subgraph per run (all of its requests / all of its entity requests with two or more representations), generated operation families and fixed operations; the expected data comes from a per-field ownership model, and where the planner serves several fields of one subgraph with one request the coarser per-request model is accepted as well; non-2xx status codes (handled in httpclient below the stubbed boundary), several simultaneously failing subgraphs and ValidateRequiredExternalFields are not exercised; fixed schedule; trusted base: gosym, reference executor, ownership model",
+    design_ref="DESIGN.md §4 C07",
+    assumptions=["consistent data universe", "timers never fire"],
+    stubs=["as C01; faults are injected by the DataSource stub"],
+    quick=[c07(1, 2, 1), c07(2, 0, 0)],
+    thorough=[c07(1, 2, 3, 3000), c07(2, 2, 2, 3000)],
 )
 
 NOT_APPLICABLE = {
